@@ -6,4 +6,7 @@ ReadValDef == [d \in XD |-> CASE d = "motor" -> "dict:motor,motor_setpoint" [] d
 DataKeysDef == [d \in XD |-> {d}]
 StreamOrderDef == <<"baseline", "interruptions", "mon1", "primary">>
 DevOrderDef == <<"det", "det2", "mon1", "motor", "motor2", "pdet", "amotor", "apdet">>
+XSus == {"s1", "s2"}
+SigOfDef == [x \in XSus |-> IF x = "s1" THEN "sig1" ELSE "sig2"]
+SusFutsDef == [x \in XSus |-> IF x = "s1" THEN <<"s1a", "s1b", "s1c", "s1d">> ELSE <<"s2a", "s2b", "s2c", "s2d">>]
 =============================================================================
